@@ -180,7 +180,7 @@ func hcChildMain(op string) {
 		case "during-ping":
 			var k int
 			fmt.Sscan(f[2], &k)
-			hcChildStopDuringPing(k, f[3] == "S")
+			hcChildStopDuringPing(k, f[3] == "S", len(f) > 4 && f[4] == "slow")
 		}
 	case "hc-double-start":
 		hcChildDoubleStart()
@@ -310,7 +310,7 @@ func hcChildStopDuringRetry(k int) {
 }
 
 // Stop() while Ping() number k is blocked; the ping is then released with the given result
-func hcChildStopDuringPing(k int, success bool) {
+func hcChildStopDuringPing(k int, success bool, slow bool) {
 	reached := make(chan struct{})
 	release := make(chan struct{})
 	cl := &hcClient{}
@@ -331,6 +331,10 @@ func hcChildStopDuringPing(k int, success bool) {
 		return
 	}
 	time.Sleep(50 * time.Millisecond)
+	if slow {
+		// the failing ping takes longer than the 1 s retry interval (e.g. it runs into its own timeout)
+		time.Sleep(1100 * time.Millisecond)
+	}
 	stopped := make(chan struct{})
 	go func() { h.Stop(); close(stopped) }()
 	blocked := "blocked"
@@ -526,6 +530,9 @@ func runC19(c *Ctx) {
 		}
 		for k := 1; k <= 5; k++ {
 			ops = append(ops, fmt.Sprintf("hc-stop during-ping %d F", k), fmt.Sprintf("hc-stop during-ping %d S", k))
+			if k < 5 {
+				ops = append(ops, fmt.Sprintf("hc-stop during-ping %d F slow", k))
+			}
 		}
 		ops = append(ops, "hc-double-start", "hc-double-stop seq", "hc-double-stop conc", "hc-stop-then-start")
 		// runs of rounds
